@@ -57,10 +57,21 @@ Definition ev_in (t : Z) (e : rev) : Z * inev :=
   | EvBadId => (t, IEof)          (* same outcome as a closed stream: ConnectionClosed *)
   end.
 
+(* end of stream inside a frame: `take(len).read_to_end` returns what there is, so a frame
+   whose id is complete is handed on with a short body; then the stream is closed *)
+Definition eof_events (st : rst) : list rev :=
+  match st with
+  | RFrame _ got => match rd_var 5 0 0 got with
+                    | Ok raw body => [EvFrame (wrap32 raw) body]
+                    | Er _ => []
+                    end
+  | _ => []
+  end.
+
 Fixpoint frames_from (max : Z) (st : rst) (s : segs) : inbox :=
   match s with
   | [] => []
-  | (t, None) :: _ => [(t, IEof)]
+  | (t, None) :: _ => map (ev_in t) (eof_events st) ++ [(t, IEof)]
   | (t, Some bs) :: r =>
       let (st', evs) := feed max st bs in
       map (ev_in t) evs ++ frames_from max st' r
